@@ -1155,7 +1155,10 @@ def fmt_define(rng, lab: str, val: str) -> str:
     kw = rng.choice(["#Define", "#Define", "#DEFINE", "#define", "#dEfInE"])
     s1 = rng.choice([" ", " ", "  ", "\t", " \t"])
     s2 = rng.choice([" ", " ", "   ", "\t", "\t\t"])
-    tail = rng.choice(["", "", "", " ", "\t", " ' comment", "' c", "  ' it's", " '", "   '#Define PAR_zz Par_9", " \x0c"])
+    tail = rng.choice(["", "", "", " ", "\t", " ' comment", "' c", "  ' it's", " '", "   '#Define PAR_zz Par_9", " \x0c",
+                       # comments glued to the value without a blank: one blank-free chunk, apostrophes inside, several apostrophes
+                       "'us", "'don't change", "'gain of loop", "\x27\x27", "'a'b'c", "'ms\t", "'x  ", "\t' tab", " \t ' both \t ", "'#", "'" + val,
+                       "' Rem old", "  \x27\x27\x27"])
     return lead + kw + s1 + lab + s2 + val + tail
 
 
@@ -1266,7 +1269,7 @@ def fmt_include(rng, src: str, dst: str, incdir: str) -> str:
         path = path.replace(sep, sep + sep, 1)
     lead = rng.choice(["", "", " ", "\t"])
     kw = rng.choice(["#Include", "#Include", "#INCLUDE", "#include"])
-    tail = rng.choice(["", "", " ", "  ' this include file will also be parsed", "'x"])
+    tail = rng.choice(["", "", " ", "  ' this include file will also be parsed", "'x", "'don't move", "\x27\x27", "\t' tab", "'a b'c ", " '"])
     return lead + kw + rng.choice([" ", "  ", "\t"]) + path + tail
 
 
@@ -1323,7 +1326,60 @@ def has_cycle(top: str, edges: list) -> list | None:
     return dfs(top)
 
 
-_O_INCLUDE = re.compile(r"^[ \t\f\v]*#include[ \t\f\v]+([^\s']+)[ \t\f\v]*('.*)?$", re.I | re.A)
+_O_BLANK = re.compile(r"[ \t\f\v\r\n]+")
+
+
+def o_tokens(line: str):
+    """Tokenizer written from the ADbasic comment rule, not from the parser's regular expressions: an apostrophe starts a
+    comment that runs to the end of the line (glued to the preceding token or not, whatever follows); what precedes it is
+    code, a sequence of blank-delimited tokens.  Returns (tokens, judged): `judged` is False when the apostrophe sits
+    before the third token starts (inside or before the symbol name) -- the parser takes such an apostrophe as part of
+    the name, which this oracle neither demands nor forbids."""
+    cut = line.find("'")
+    code = line if cut < 0 else line[:cut]
+    toks = [t for t in _O_BLANK.split(code) if t]
+    judged = True
+    if cut >= 0 and toks and toks[0].lower().startswith("#define"):
+        m = re.match(r"[ \t\f\v]*\S+[ \t\f\v]+\S+[ \t\f\v]+(?=\S)", line)      # where the third token starts
+        if m is None or cut < m.end():
+            judged = False
+    return toks, judged
+
+
+def o_scan(text_lines):
+    """-> (defs {line_nr: (label, value)}, unjudged line numbers, includes [path]) by the comment rule"""
+    defs, unjudged, incs = {}, set(), []
+    for i, ln in enumerate(text_lines, 1):
+        toks, judged = o_tokens(ln)
+        if not toks:
+            continue
+        kw = toks[0].lower()
+        if kw.startswith("#define") and not judged:
+            unjudged.add(i)
+        elif kw == "#define" and len(toks) == 3:
+            defs[i] = (toks[1], toks[2])
+        elif kw == "#include" and len(toks) == 2:
+            incs.append(toks[1])
+    return defs, unjudged, incs
+
+
+def o_check_scan(text_lines, symbols, name: str):
+    """every #Define line of the source is reported with exactly its name and value, and nothing else is reported"""
+    defs, unjudged, _incs = o_scan(text_lines)
+    got = {s.line_nr: (s.label, s.value) for s in symbols}
+    for i, (lab, val) in sorted(defs.items()):
+        if i not in got:
+            return "scan:define-line-not-reported", f"{name}:{i}: {text_lines[i - 1]!a}"
+        if got[i] != (lab, val):
+            cls = "comment-glued-to-value" if "'" in got[i][1] else "other"
+            return (f"scan:define-line-reported-with-other-name-or-value:{cls}",
+                    f"{name}:{i}: {text_lines[i - 1]!a} reported as {got[i]!a}, the source says {(lab, val)!a}")
+    for i in sorted(got):
+        if i not in defs and i not in unjudged:
+            line = text_lines[i - 1] if 1 <= i <= len(text_lines) else "<the file has no such line>"
+            return "scan:reported-definition-that-is-not-in-the-source", f"{name}:{i}: {line!a} reported as {got[i]!a}"
+    return None
+
 
 
 def o_resolve(include_path: str, including_file: str, include_dir: str):
@@ -1353,12 +1409,10 @@ def o_closure(top: str, incdir: str, base) -> tuple:
         seen.add(key)
         order.append(key)
         with open(key, "r") as fh:
-            for ln in fh.read().splitlines():
-                m = _O_INCLUDE.match(ln)
-                if m:
-                    r = o_resolve(m.group(1), f, incdir)
-                    if r:
-                        todo.append(r)
+            for incp in o_scan(fh.read().splitlines())[2]:
+                r = o_resolve(incp, f, incdir)
+                if r:
+                    todo.append(r)
     return order, missing
 
 
@@ -1442,19 +1496,30 @@ def run_program_scenario(sc: dict, root: Path, count=None):
                 break
             if r and os.path.isfile(os.path.join(base, r)) and os.path.normpath(os.path.join(base, r)) not in parsed:
                 fails.append(("parse:included-file-not-parsed", f"{incp!r} in {os.path.relpath(os.path.join(base, src), cwd)}", None))
-        # and every #Define line of a parsed file must be among the symbols
-        have = {(os.path.normpath(os.path.join(base, s.filename)), s.line_nr) for s in symbols}
-        for o in sorted(parsed):
+        # and every #Define line of a parsed file must be reported with its name and value -- judged by the independent
+        # tokenizer (comment rule), file by file in the order the parser opened them
+        by_source, seen_files = [], set()
+        for o in opened:
+            key = os.path.normpath(os.path.join(base, o))
+            if key in seen_files:
+                continue
+            seen_files.add(key)
             try:
-                with open(o, "r") as f:
+                with open(key, "r") as f:
                     src_lines = f.read().splitlines()
             except OSError:
                 continue
-            miss = [i + 1 for i, ln in enumerate(src_lines)
-                    if re.match(r"^[ \t\f\v]*#define[ \t\f\v]+\S+[ \t\f\v]+[^\s']+[ \t\f\v]*('.*)?$", ln, re.I | re.A) and (o, i + 1) not in have]
-            if miss:
-                fails.append(("parse:define-line-of-parsed-file-missing", f"{os.path.relpath(o, cwd)}:{miss[0]}", None))
-                break
+            mine = [sy for sy in symbols if sy.filename == o]
+            bad = o_check_scan(src_lines, mine, os.path.relpath(key, cwd))
+            if bad and not fails:
+                fails.append((bad[0], bad[1], None))
+            defs_o, unjudged_o, _i = o_scan(src_lines)
+            rep = {sy.line_nr: sy for sy in mine}
+            for i in range(1, len(src_lines) + 1):
+                if i in defs_o:
+                    by_source.append(ap.SymbolInfo(o, i, defs_o[i][0], defs_o[i][1]))
+                elif i in unjudged_o and i in rep:
+                    by_source.append(rep[i])
         # positions reported by the scanner must be real #Define lines of that file
         for s in symbols:
             try:
@@ -1475,6 +1540,12 @@ def run_program_scenario(sc: dict, root: Path, count=None):
         bad = oracle_binding(symbols, outcome)
         if bad:
             fails.append((bad[0], bad[1], None))
+        else:
+            # the same judgement against the definitions as the SOURCE states them (independent tokenizer): every #Define
+            # line of a parsed file is in the binding, or the program is rejected with file and line of a real conflict
+            bad = oracle_binding(by_source, outcome)
+            if bad:
+                fails.append((bad[0] + ":by-source-text", bad[1], None))
         if outcome[0] == "ok":
             info = outcome[1]
             types = {int(k): tuple(v) for k, v in sc["types"].items()}
@@ -1588,7 +1659,7 @@ def gen_text(rng) -> str:
         k = rng.random()
         if k < 0.45:
             lab = rng.choice(["PAR_a", "DATA_b", "x", "PAR_a'b", "'q", "P", "PAR_\x1fz", "a#b"])
-            val = rng.choice(["Par_1", "Data_2", "DATA_b[3]", "7", "v\x1f", "a[1]", "b#c"])
+            val = rng.choice(["Par_1", "Data_2", "DATA_b[3]", "7", "v\x1f", "a[1]", "b#c", "Par_12'us", "DATA_b[2]'don't", "Par_3'gain of loop"])
             lines.append(fmt_define(rng, lab, val))
         elif k < 0.6:
             lines.append(rng.choice(["", " ", "\t"]) + rng.choice(["#Include", "#include", "#INCLUDE"]) + rng.choice([" ", "\t", "  ", ""]) +
@@ -1698,6 +1769,20 @@ def corpus_programs_4():
                      "lib/b.inc": "#Include ..\\lib\\sub\\c.inc\n#Define PAR_b Par_2\n",
                      "lib/sub/c.inc": "#Define PAR_c Par_3\n#Define PAR_a par_01\n"},
            "top": "main.bas", "incdir": "", "relative": True, "types": t, "cyc": None, "n_ops": 2, "ops_seed": 10}
+
+
+def corpus_programs_5():
+    t = {str(d): ["long", True] for d in range(1, 12)}
+    # comments glued to the value; a second name on the same register / a re-definition in an include file must be rejected
+    yield {"files": {"prog/main.bas": "#Define PAR_t_wait Par_12'us\n#Define PAR_other Par_12 ' alias of t_wait\n"},
+           "top": "prog/main.bas", "incdir": "prog", "relative": False, "types": t, "cyc": None, "n_ops": 0}
+    yield {"files": {"prog/main.bas": "#Define DATA_timing Data_4\n#Define PAR_slow DATA_timing[2]'don't change\n#Include .\\i.inc'glued\n",
+                     "prog/i.inc": "#Define PAR_slow DATA_timing[3]''\n"},
+           "top": "prog/main.bas", "incdir": "prog", "relative": True, "types": t, "cyc": None, "n_ops": 0}
+    yield {"files": {"prog/main.bas": "#Define DATA_timing Data_4'arr\n#Define PAR_a DATA_timing[1]'x y'z\n#Define PAR_b Par_3'gain of loop\n"
+                                      "\t#define\tPAR_c\tFPar_2\t'tab\n#Define PAR_d Par_4'\n#Define PAR_e Par_5 Rem not a comment\n#Include sub\\j.inc\t'c\n",
+                     "prog/sub/j.inc": "#Define PAR_f DATA_TIMING[2]'#Define PAR_g Par_9\n"},
+           "top": "prog/main.bas", "incdir": "prog", "relative": False, "types": t, "cyc": None, "n_ops": 3, "ops_seed": 11}
 
 
 def corpus_layouts():
@@ -1901,7 +1986,7 @@ class C20(Prop):
         with tempfile.TemporaryDirectory(prefix="c20_") as tmp:
             tmp = Path(os.path.realpath(tmp))
             # --- fixed corpus
-            for i, sc in enumerate(list(corpus_programs()) + list(corpus_programs_2()) + list(corpus_programs_3()) + list(corpus_programs_4())):
+            for i, sc in enumerate(list(corpus_programs()) + list(corpus_programs_2()) + list(corpus_programs_3()) + list(corpus_programs_4()) + list(corpus_programs_5())):
                 sc = dict(sc)
                 lines, outs, fails, _ = run_program_scenario(sc, tmp / f"c{i}", res.count)
                 add("E", {"kind": "program", "scenario": sc}, lines, outs)
@@ -1923,6 +2008,10 @@ class C20(Prop):
                 syms, incs = ap._parse_single_adbasic_file(str(scan_file))
                 out = f"syms={jc(f'{hx(s.filename)}:{s.line_nr}:{hx(s.label)}:{hx(s.value)}' for s in syms)} incs={jc(hx(p) for p in incs)}"
                 add("A", {"kind": "scan", "text": text}, [f"scan {hx(str(scan_file))} {hx(text)}"], [out])
+                with open(scan_file, "r") as f:
+                    bad = o_check_scan(f.read().splitlines(), syms, "scan.bas")
+                if bad and not any(fl.signature == bad[0] for fl in res.failures):
+                    res.failures.append(Failure(bad[0], f"{bad[0]}: {bad[1]}", {"kind": "scan", "text": text, "clause": bad[0]}))
                 res.note_case(("A", text), nontrivial=False)
                 res.count("A_scan_texts")
                 res.count("A_defines_found", len(syms))
@@ -2045,6 +2134,17 @@ class C20(Prop):
             for (sig, detail, _x) in fails:
                 if not sig.startswith("harness:"):
                     return Failure(sig, f"{sig}: {detail}", {"kind": "program", "scenario": sc, "clause": sig})
+        elif kind == "scan":
+            from qmi.utils import adbasic_parser as ap
+            root.mkdir(parents=True, exist_ok=True)
+            fpath = root / "replay_scan.bas"
+            with open(fpath, "w", encoding="utf-8", newline="") as f:
+                f.write(c["text"])
+            syms, _incs = ap._parse_single_adbasic_file(str(fpath))
+            with open(fpath, "r") as f:
+                bad = o_check_scan(f.read().splitlines(), syms, "scan.bas")
+            if bad:
+                return Failure(bad[0], f"{bad[0]}: {bad[1]}", {"kind": "scan", "text": c["text"], "clause": bad[0]})
         elif kind == "config":
             sc = dict(c["scenario"])
             _l, _o, fails = run_config_scenario(sc)
@@ -2123,8 +2223,8 @@ class C20(Prop):
         logging.getLogger("qmi.utils.adbasic_parser").setLevel(logging.CRITICAL)
         with tempfile.TemporaryDirectory(prefix="c20r_") as tmp:
             tmp = Path(os.path.realpath(tmp))
-            if rp.get("kind") == "ranges":
-                f = self._eval_case(rp, tmp)
+            if rp.get("kind") in ("ranges", "scan"):
+                f = self._eval_case(rp, tmp / "r")
                 return f
             sc = dict(rp["scenario"])
             if rp["kind"] == "layout":
